@@ -74,6 +74,24 @@ FAMILY = [
     ("encoding", None, "utf-8", '<p tal:content="name">x</p>', "PageTemplate", "PageTemplate"),
     ("extra_builtins_value", {"foo": 1}, {"foo": 2}, "<p>${foo}</p>", "PageTemplate", "PageTemplate"),
 ]
+# bodies that differ in something a key must not normalise away (the output
+# differs): line endings under an XML declaration (not converted in XML
+# mode), trailing newline, tag case, numeric vs named entity, tab vs space,
+# composed vs decomposed character
+NEAR_BODIES = [
+    ('<?xml version="1.0"?>\r\n<doc>\r\n<p>${name}</p>\r\n</doc>',
+     '<?xml version="1.0"?>\n<doc>\n<p>${name}</p>\n</doc>'),
+    ('<?xml version="1.0"?>\r<doc>\r<p>${name}</p></doc>',
+     '<?xml version="1.0"?>\n<doc>\n<p>${name}</p></doc>'),
+    ("<p>${name}</p>", "<p>${name}</p>\n"),
+    ("<P>${name}</P>", "<p>${name}</p>"),
+    ("<p>&lt;${name}</p>", "<p>&#60;${name}</p>"),
+    ("<p>a\tb ${name}</p>", "<p>a b ${name}</p>"),
+    ("<p>caf\u00e9 ${name}</p>", "<p>cafe\u0301 ${name}</p>"),
+    ("<p>${name }</p>", "<p>${name}</p> "),
+]
+FAMILY += [("body_near", a, b, None, "PageTemplate", "PageTemplate")
+           for a, b in NEAR_BODIES]
 FAMILY_BY_NAME = {f[0]: f for f in FAMILY}
 OPTION_OF = {
     "extra_builtins_value": "extra_builtins",
@@ -273,14 +291,17 @@ class C15(CheckBase):
             # differs in exactly one input
             if ch.coin(0.3):
                 common["trim_attribute_space"] = True
-            if name == "body":
+            if name == "body_near":
+                ta = {"cls": ca, "body": va, "config": dict(common)}
+                tb = {"cls": cb, "body": vb, "config": dict(common)}
+            elif name == "body":
                 ba, bb = ch.sample(POOL, 2)
                 ta = {"cls": ca, "body": ba, "config": dict(common)}
                 tb = {"cls": cb, "body": bb, "config": dict(common)}
             else:
                 ta = {"cls": ca, "body": body, "config": dict(common)}
                 tb = {"cls": cb, "body": body, "config": dict(common)}
-                if name not in ("class", "class_module"):
+                if name not in ("class", "class_module", "body_near"):
                     # None means "option not passed at all"
                     if va is not None:
                         ta["config"][name] = va
